@@ -241,12 +241,17 @@ theorem stepClient_sorted (g : G) (c : Client) (f : Fault) (hs : g.store.Sorted)
   · intros; split <;> exact hs
   · exact hs
 
-theorem stepRetry_sorted (g : G) (f : Fault) (hs : g.store.Sorted) : (stepRetry g f).store.Sorted := by
-  apply stepRetry_cases (P := fun g' => g'.store.Sorted)
-  · exact hs
+theorem stepRetryRead_sorted (g : G) (hs : g.store.Sorted) : (stepRetryRead g).store.Sorted := by
+  apply stepRetryRead_cases (P := fun g' => g'.store.Sorted) <;> intros <;> exact hs
+
+theorem stepRetryCommit_sorted (g : G) (f : Fault) (hs : g.store.Sorted) : (stepRetryCommit g f).store.Sorted := by
+  apply stepRetryCommit_cases (P := fun g' => g'.store.Sorted)
   · intro _; exact hs
-  · intro w rest q val r st _ _ hdc
+  · intro p r st _ hdc
     simpa using doCommit_sorted' hs hdc
+
+theorem stepRetry_sorted (g : G) (f : Fault) (hs : g.store.Sorted) : (stepRetry g f).store.Sorted :=
+  stepRetryCommit_sorted _ f (stepRetryRead_sorted g hs)
 
 theorem act_sorted (g : G) (a : Action) (hs : g.store.Sorted) : (act g a).store.Sorted := by
   cases a with
@@ -257,6 +262,8 @@ theorem act_sorted (g : G) (a : Action) (hs : g.store.Sorted) : (act g a).store.
     · exact stepClient_sorted _ _ _ hs
   | seq => rw [show act g .seq = stepSeq g from rfl, (stepSeq_frame g).1]; exact hs
   | retry f => exact stepRetry_sorted g f hs
+  | retryRead => exact stepRetryRead_sorted g hs
+  | retryCommit f => exact stepRetryCommit_sorted g f hs
 
 theorem run_sorted (g : G) (s : List Action) (hs : g.store.Sorted) : (run g s).store.Sorted := by
   induction s generalizing g with
@@ -332,7 +339,7 @@ theorem getInternal_top (cfg : Cfg) {store : Store} (hs : store.Sorted) {R : Nat
 /-! ### a create + read of a fresh key after an arbitrary reachable quiescent state -/
 
 theorem probe_serves {g0 g : G} (h0 : C02.Init g0) (hs : C02.StoreOK g0) (hr : Reachable g0 g)
-    (hq : g.clients = []) (hb : g.dealt + 1 < 2 ^ 64)
+    (hq : g.clients = []) (hp : g.retryPc = none) (hb : g.dealt + 1 < 2 ^ 64)
     (hal : ∀ kv ∈ g.store, ∃ k' r, kv.1 = encode k' r ∧ Alphabet k')
     (id : Nat) (k v : Bytes) (hk : Alphabet k) (hv : v ≠ tombstone)
     (hfresh : g.store.get (idxKey k) = none) :
@@ -353,7 +360,8 @@ theorem probe_serves {g0 g : G} (h0 : C02.Init g0) (hs : C02.StoreOK g0) (hr : R
   have hcl3 : g3.clients = [] := by rw [e3]; exact hq
   have hst3 : g3.store = (g.store.put (idxKey k) (be8 (g.dealt + 1))).put (encode k (g.dealt + 1)) v := by rw [e3]
   have hcfg3 : g3.cfg = g.cfg := by rw [e3]
-  have hcatch := C04.quiescent_catches_up h0.1 hr3 (fun c hc => by rw [hcl3] at hc; cases hc)
+  have hp3 : g3.retryPc = none := by rw [e3]; exact hp
+  have hcatch := C04.quiescent_catches_up h0.1 hr3 (fun c hc => by rw [hcl3] at hc; cases hc) hp3
   rw [hd3, hc3, ← hg1] at hcatch
   obtain ⟨fs, fc, fd⟩ := run_seq_frame (g.dealt + 1 - g.committed) g3
   rw [← hg1] at fs fc fd
@@ -396,6 +404,7 @@ structure AlphaInv (g : G) : Prop where
   sl : ∀ s ∈ g.slots, Alphabet s.key
   rq : ∀ q ∈ g.retryQ, Alphabet q.key
   st : StoreAlpha g.store
+  rp : ∀ p, g.retryPc = some p → Alphabet p.w.key
 
 theorem StoreAlpha.wstore {st : Store} (h : StoreAlpha st) {key : Bytes} (hk : Alphabet key) (rev : Nat) (new v : Bytes) :
     StoreAlpha ((st.put (idxKey key) new).put (encode key rev) v) := by
@@ -421,11 +430,11 @@ theorem StoreAlpha.cas {c : Cfg} {s st : Store} {key new old v : Bytes} {rev : N
   · rw [e]; exact h
 
 theorem AlphaInv.deal {g : G} (h : AlphaInv g) (d : Nat) : AlphaInv { g with dealt := d } :=
-  ⟨h.cl, h.sl, h.rq, h.st⟩
+  ⟨h.cl, h.sl, h.rq, h.st, h.rp⟩
 
 theorem AlphaInv.setClient {g : G} (h : AlphaInv g) (c' : Client) (hc' : Alphabet c'.kind.key) :
     AlphaInv (g.setClient c') := by
-  refine ⟨?_, h.sl, h.rq, h.st⟩
+  refine ⟨?_, h.sl, h.rq, h.st, h.rp⟩
   intro x hx
   simp only [G.setClient, List.mem_map] at hx
   obtain ⟨y, hy, e⟩ := hx
@@ -435,13 +444,13 @@ theorem AlphaInv.setClient {g : G} (h : AlphaInv g) (c' : Client) (hc' : Alphabe
 
 theorem AlphaInv.finish {g : G} (h : AlphaInv g) (c : Client) (res : WriteRes) (rev : Nat) :
     AlphaInv (g.finish c res rev) :=
-  ⟨fun x hx => h.cl x (List.mem_filter.mp hx).1, h.sl, h.rq, h.st⟩
+  ⟨fun x hx => h.cl x (List.mem_filter.mp hx).1, h.sl, h.rq, h.st, h.rp⟩
 
 theorem AlphaInv.notify {g : G} (h : AlphaInv g) (w : WEvent) (hw : Alphabet w.key) : AlphaInv (g.notify w) := by
   unfold G.notify
   split
   · exact h
-  · refine ⟨h.cl, ?_, h.rq, h.st⟩
+  · refine ⟨h.cl, ?_, h.rq, h.st, h.rp⟩
     intro s hs
     rcases List.mem_append.mp hs with hs | hs
     · exact h.sl s hs
@@ -451,8 +460,8 @@ theorem AlphaInv.afterCommit {g : G} (h : AlphaInv g) {st : Store} (hst : StoreA
     (key : Bytes) (rev : Nat) (val : Option Bytes) (exp : Expect) : AlphaInv (afterCommit g r st f key rev val exp) := by
   unfold SysStore.afterCommit
   split
-  · exact ⟨h.cl, h.sl, h.rq, hst⟩
-  · exact ⟨h.cl, h.sl, h.rq, hst⟩
+  · exact ⟨h.cl, h.sl, h.rq, hst, h.rp⟩
+  · exact ⟨h.cl, h.sl, h.rq, hst, h.rp⟩
 
 theorem AlphaInv.finishCreate {g : G} (h : AlphaInv g) (c : Client) (hc : Alphabet c.kind.key) {key : Bytes}
     (hk : Alphabet key) (val : Bytes) (rev : Nat) (r : CommitRes) : AlphaInv (finishCreate g c key val rev r) := by
@@ -557,7 +566,7 @@ theorem AlphaInv.stepSeq {g : G} (h : AlphaInv g) : AlphaInv (stepSeq g) := by
   · exact h
   · rename_i w hw
     have hwm : w ∈ g.slots := List.mem_of_find?_eq_some hw
-    refine ⟨h.cl, fun s hs => h.sl s (List.mem_filter.mp hs).1, ?_, h.st⟩
+    refine ⟨h.cl, fun s hs => h.sl s (List.mem_filter.mp hs).1, ?_, h.st, h.rp⟩
     intro q hq
     simp only at hq
     split at hq
@@ -566,22 +575,34 @@ theorem AlphaInv.stepSeq {g : G} (h : AlphaInv g) : AlphaInv (stepSeq g) := by
       · rw [List.mem_singleton.mp hq]; exact h.sl w hwm
     · exact h.rq q hq
 
-theorem AlphaInv.stepRetry {g : G} (h : AlphaInv g) (f : Fault) : AlphaInv (stepRetry g f) := by
-  apply stepRetry_cases' (P := AlphaInv)
+theorem AlphaInv.stepRetryRead {g : G} (h : AlphaInv g) : AlphaInv (stepRetryRead g) := by
+  apply stepRetryRead_cases (P := AlphaInv)
+  · intros; exact h
+  · intros; exact h
+  · intro w rest _ hq _
+    exact ⟨h.cl, h.sl, fun q hqm => h.rq q (by rw [hq]; exact List.mem_cons_of_mem _ hqm), h.st, h.rp⟩
+  · intro w rest val _ hq _ _
+    refine ⟨h.cl, h.sl, h.rq, h.st, ?_⟩
+    intro p hp
+    have hp' : some ({ w := w, rev := g.dealt + 1, val := val } : RetryPc) = some p := hp
+    simp only [Option.some.injEq] at hp'
+    subst hp'
+    exact h.rq w (by rw [hq]; exact List.mem_cons_self ..)
+
+theorem AlphaInv.stepRetryCommit {g : G} (h : AlphaInv g) (f : Fault) : AlphaInv (stepRetryCommit g f) := by
+  apply stepRetryCommit_cases (P := AlphaInv)
   · intro _; exact h
-  · intro w rest hq _
-    exact ⟨h.cl, h.sl, fun q hqm => h.rq q (by rw [hq]; exact List.mem_cons_of_mem _ hqm), h.st⟩
-  · intro w rest val r st hq _ _ hdc
-    have hw : Alphabet w.key := h.rq w (by rw [hq]; exact List.mem_cons_self ..)
-    have h1 : AlphaInv ({ g with dealt := g.dealt + 1
-                                 retryQ := (if r == CommitRes.ok || r.isCas then rest else w :: rest) } : G) := by
-      refine ⟨h.cl, h.sl, ?_, h.st⟩
+  · intro p r st hp hdc
+    have hw : Alphabet p.w.key := h.rp p hp
+    have h1 : AlphaInv ({ g with retryPc := none
+                                 retryQ := (if r == CommitRes.ok || r.isCas then g.retryQ.drop 1 else g.retryQ) } : G) := by
+      refine ⟨h.cl, h.sl, ?_, h.st, fun q hq => by cases hq⟩
       intro q hqm
       simp only at hqm
       split at hqm
-      · exact h.rq q (by rw [hq]; exact List.mem_cons_of_mem _ hqm)
-      · exact h.rq q (by rw [hq]; exact hqm)
-    exact (h1.afterCommit (h.st.cas hw hdc) r f w.key (g.dealt + 1) _ (.rev w.rev)).notify _ hw
+      · exact h.rq q (List.mem_of_mem_drop hqm)
+      · exact h.rq q hqm
+    exact (h1.afterCommit (h.st.cas hw hdc) r f p.w.key p.rev _ (.rev p.w.rev)).notify _ hw
 
 /-- a request whose key is over the documented alphabet -/
 def ActAlpha (a : Action) : Prop := ∀ id kind, a = .begin id kind → Alphabet kind.key
@@ -591,7 +612,7 @@ theorem AlphaInv.act {g : G} (h : AlphaInv g) (a : Action) (ha : ActAlpha a) : A
   | begin id kind =>
     unfold KB.act; simp only []; split
     · exact h
-    · refine ⟨?_, h.sl, h.rq, h.st⟩
+    · refine ⟨?_, h.sl, h.rq, h.st, h.rp⟩
       intro c hc
       rcases List.mem_append.mp hc with hc | hc
       · exact h.cl c hc
@@ -602,7 +623,9 @@ theorem AlphaInv.act {g : G} (h : AlphaInv g) (a : Action) (ha : ActAlpha a) : A
     · rename_i c hc
       exact h.stepClient (mem_client hc).1 f
   | seq => exact h.stepSeq
-  | retry f => exact h.stepRetry f
+  | retry f => exact h.stepRetryRead.stepRetryCommit f
+  | retryRead => exact h.stepRetryRead
+  | retryCommit f => exact h.stepRetryCommit f
 
 theorem AlphaInv.run {g : G} (h : AlphaInv g) (s : List Action) (hs : ∀ a ∈ s, ActAlpha a) : AlphaInv (run g s) := by
   induction s generalizing g with
@@ -611,9 +634,9 @@ theorem AlphaInv.run {g : G} (h : AlphaInv g) (s : List Action) (hs : ∀ a ∈ 
     exact ih (h.act a (hs a (List.mem_cons_self ..))) (fun b hb => hs b (List.mem_cons_of_mem _ hb))
 
 theorem AlphaInv.init {g0 : G} (h0 : C02.Init g0) (hs : C02.StoreOK g0) : AlphaInv g0 := by
-  obtain ⟨⟨_, hsl, hcl, hq⟩, _⟩ := h0
+  obtain ⟨⟨_, hsl, hcl, hq, hp⟩, _⟩ := h0
   obtain ⟨recs, hst, _, hrecs, _⟩ := hs
-  refine ⟨by simp [hcl], by simp [hsl], by simp [hq], ?_⟩
+  refine ⟨by simp [hcl], by simp [hsl], by simp [hq], ?_, by simp [hp]⟩
   intro kv hkv
   rw [hst] at hkv
   obtain ⟨r, hr, e⟩ := List.mem_map.mp hkv
